@@ -14,7 +14,7 @@ import (
 
 // Prelude defines log() purely inside the JavaScript heap (host functions are shared between a
 // runtime and its copies by design and are therefore kept out of C17/C20).
-const Prelude = `var __trace = [];
+const Prelude = `var __builtins = Object.getOwnPropertyNames(this); var __trace = [];
 function log() { var a = []; for (var i = 0; i < arguments.length; i++) { var v = arguments[i]; a.push(typeof v === "object" || typeof v === "function" ? typeof v : String(v)); } __trace.push(a.join("|")); }
 `
 
@@ -62,7 +62,7 @@ const Dump = `(function (global) {
   return out.join("\n");
 })(this)`
 
-// Exercise calls every user-defined global function with no arguments and records what comes
+// Exercise calls every global function that is not a built-in binding (script functions, bound functions, aliases of natives) with no arguments and records what comes
 // back, then dumps. It changes closure state — identically on equivalent runtimes.
 const Exercise = `(function (global) {
   var r = [], names = Object.getOwnPropertyNames(global).sort();
@@ -70,9 +70,7 @@ const Exercise = `(function (global) {
     var n = names[i], v;
     if (n === "log" || n.charAt(0) === "_" ) continue;
     try { v = global[n]; } catch (e) { r.push(n + " get!" + e.name); continue; }
-    if (typeof v !== "function") continue;
-    var src = ""; try { src = Function.prototype.toString.call(v); } catch (e) {}
-    if (src.indexOf("[native code]") >= 0) continue;
+    if (typeof v !== "function" || __builtins.indexOf(n) >= 0) continue; // every function the history put there, bound ones included
     try { var x = v(); r.push(n + "()=" + (typeof x === "object" || typeof x === "function" ? typeof x : String(x))); }
     catch (e) { r.push(n + "() threw " + (e && e.name)); }
   }
@@ -116,10 +114,29 @@ var Builders = []string{
 	`var wrapN = new Number(%N), wrapS = new String("str"), wrapB = new Boolean(false); wrapS.extra = 1; var holes = [1, , 3]; holes.tag = "t"; holes.length = 5; var sparse = []; sparse[7] = "x";`,
 	// getters on prototypes, inherited setters
 	`function Temp(){ this._c = %N } Object.defineProperty(Temp.prototype, "f", { get: function(){ return this._c * 2 }, set: function(v){ this._c = v / 2 }, configurable: true }); var temp = new Temp(); temp.f = 100; var tempF = function(){ return temp.f + ":" + temp._c };`,
+	// immutable and special bindings: named function expression, catch parameter, arguments in closures
+	`var selfRef = function me(){ me = %N; return typeof me + ":" + (me === selfRef) }; var fact = function f(n){ return n < 2 ? 1 : n * f(n - 1) }; var useFact = function(){ return fact(4) };`,
+	`var fromCatch; try { throw {c: %N} } catch (ex) { fromCatch = function(){ ex.c++; return ex.c } } fromCatch();`,
+	`var argsClosure = (function(a, b){ return function(){ a.n++; arguments; return a.n + ":" + b } })({n: %N}, "b");`,
+	// objects held only by closures, bound functions with object this / object arguments, nested binds
+	`var holder = (function(){ var priv = {n: %N, list: [1, 2]}; return function(){ priv.n++; priv.list.push(priv.n); return priv.n + ":" + priv.list.length } })(); holder();`,
+	`var box = {n: %N}; var bumpBox = function(b, k){ b.n += (k || 1); return b.n }.bind(null, box); var bumpTwice = bumpBox.bind(null, 2); var selfBox = function(){ this.n++; return this.n }.bind(box); bumpBox();`,
+	`var shared = {hits: %N}; var incA = (function(o){ return function(){ return ++o.hits } })(shared), incB = (function(o){ return function(){ return o.hits += 10 } })(shared); incA();`,
+	// objects whose key lists grew one by one (spare capacity), arrays of objects, deep chains
+	`var grown = {}; grown.k1 = 1; grown.k2 = 2; grown.k3 = %N; var grownArr = []; grownArr.push({i: 0}); grownArr.push({i: 1}); grownArr.push({i: 2}); var grownFn = function(){}; grownFn.a = 1; grownFn.b = 2; grownFn.c = 3;`,
+	`var lvl0 = {depth: 0, tag: %N}; var lvl1 = Object.create(lvl0); lvl1.depth = 1; var lvl2 = Object.create(lvl1); lvl2.depth = 2; var lvl3 = Object.create(lvl2); var deepGet = function(){ return lvl3.depth + ":" + lvl3.tag };`,
 	// eval-created bindings, Function constructor, with
 	`eval("var fromEval = %N; function evalFn(){ return fromEval + 1 }"); var made = new Function("a", "b", "return a + b + " + %N); var useMade = function(){ return made(1, 2) + evalFn() };`,
 	`var scopeObj = {sv: %N}; var inWith; with (scopeObj) { inWith = function(){ return sv++ } } inWith();`,
 }
+
+// AddKeys adds one fresh property (named with the tag) to every object and function reachable as a global,
+// built-ins included: both sides of a copy get different tags, so storage shared between the clones
+// (property maps, key-order slices with spare capacity) shows up as a wrong key list on one side.
+const AddKeys = `(function (g) { var names = Object.getOwnPropertyNames(g).sort(), n = 0;
+  for (var i = 0; i < names.length; i++) { var v; try { v = g[names[i]]; } catch (e) { continue; }
+    if ((typeof v === "object" && v !== null) || typeof v === "function") { try { v["added_%TAG"] = i; n++; } catch (e) {} } }
+  return n; })(this)`
 
 // Mutators: programs that change the heap built by the builders (assignments, deletions,
 // defineProperty, freezing, prototype edits, closure state changes, built-in edits). Every
